@@ -9,6 +9,7 @@ import Driver.Expr
 import Driver.VEq
 import Driver.Types
 import Driver.Tmpl
+import Driver.Derive
 /-! Line-protocol driver: one request per line on stdin, one canonical result line on stdout. -/
 open SeaQ SeaQ.Util
 
@@ -59,6 +60,7 @@ def handleWords (line : String) : String :=
     match backendOf b, decodeStr s with
     | some b, some cs => "ok " ++ encodeStr (Ident.prepare (Ident.quoteOf b) cs)
     | _, _ => "bad-op"
+  | "derive" :: args => Driver.Derive.run args
   | "tmpl" :: args => Driver.Tmpl.runTmpl args
   | "inj" :: args => Driver.Tmpl.runInj args
   | _ => "bad-op"
